@@ -79,7 +79,9 @@ mpf_sqrt (mpf_ptr r, mpf_srcptr u)
   expodd = (uexp & 1);
   tsize = 2 * prec - expodd;
   r->_mp_size = prec;
-  r->_mp_exp = (uexp + expodd) / 2;    /* ceil(uexp/2) */
+  r->_mp_exp = (uexp - expodd) / 2 + expodd;    /* ceil(uexp/2); uexp + expodd
+						   would overflow for the largest
+						   exponent */
 
   /* root size is ceil(tsize/2), this will be our desired "prec" limbs */
   ASSERT ((tsize + 1) / 2 == prec);
